@@ -208,12 +208,13 @@ def _(n, T):
     return [F(n, "str_val", [P("a", "str_cref"), P("b", "str_cref")])]
 
 
-@shape("vec_in", types=["int", "double"], langs=("c++",), wraps=("c", "fortran"), doc="vectors.yaml vector_sum")
+@shape("vec_in", types=["int", "double", "int64_t", "long"], langs=("c++",), wraps=("c", "fortran"), doc="vectors.yaml vector_sum")
 def _(n, T):
-    return [F(n, T, [P("v", "vec_in", T)])]
+    # result type int for the fixed-width element types: the element type must then come from the vector alone
+    return [F(n, T if T in ("int", "double") else "int", [P("v", "vec_in", T)])]
 
 
-@shape("vec_out", types=["int", "double"], langs=("c++",), wraps=("c", "fortran"), doc="vectors.yaml vector_iota_out")
+@shape("vec_out", types=["int", "double", "int32_t", "size_t"], langs=("c++",), wraps=("c", "fortran"), doc="vectors.yaml vector_iota_out")
 def _(n, T):
     return [F(n, "void", [P("v", "vec_out", T), P("k", "val", "int")])]
 
@@ -232,6 +233,13 @@ def _(n, T):
 def _(n, T):
     return [F(n, "double", [P("a", "val", "int"), P("x", "val", "double", default="1.5")], fid=n + "#id"),
             F(n, "int", [P("flag", "val", "bool")], fid=n + "#b")]
+
+
+@shape("overload_mixed_sfx", langs=("c++",), wraps=("c", "fortran"), doc="tutorial.yaml OverloadedFunction: an explicitly suffixed member declared before automatically numbered ones (the number is the position in the set)")
+def _(n, T):
+    return [F(n, "int", [P("a", "val", "int")], fid=n + "#i", yaml={"format": {"function_suffix": "_first"}}),
+            F(n, "int", [P("a", "val", "double"), P("b", "val", "int")], fid=n + "#di"),
+            F(n, "int", [P("a", "val", "long"), P("b", "val", "int"), P("c", "val", "int")], fid=n + "#lii")]
 
 
 @shape("overload_sfx", langs=("c++",), wraps=ALLW, doc="tutorial.yaml OverloadedFunction")
@@ -341,6 +349,12 @@ def _(n, T):
             F(n + "c", "cstr", [P("a", "val", "int")], ns=n + "_inner")]
 
 
+@shape("arr_out_dim2", types=["int", "double"], wraps=("c", "fortran", "python"), doc="pointers.yaml: intent(out) array with +dimension(expr, expr) (list mode in Python: the wrapper allocates the product of the extents)")
+def _(n, T):
+    return [F(n, "void", [P("n", "val", "int", role="count"), P("m", "val", "int", role="count"), P("a", "arr_out", T, dims=["n+1", "m"])]),
+            F(n + "b", "int", [P("n", "val", "int", role="count"), P("m", "val", "int", role="count"), P("a", "arr_out", T, dims=["n", "m-1+2"])])]
+
+
 @shape("arr_res_dim2_py", types=["int", "double"], wraps=("python",), doc="pointers.yaml / ownership.yaml: pointer result and out argument with +dimension(expr, expr), list mode: a flat list of the product of the extents")
 def _(n, T):
     return [F(n + "p", {"kind": "arr_ptr", "T": T, "deref": "pointer", "owner": "library", "dims": ["n+1", "m"]},
@@ -361,6 +375,13 @@ def _(n, T):
 def _(n, T):
     return [F(n, {"kind": "val", "T": "Value"}, [P("v", "val", "Value"), P("k", "val", "Index")], tparams=["Value", "Index"],
               template=[["double", "int"], ["int", "long"], ["float", "short"]])]
+
+
+@shape("char_scalar", langs=("c", "c++"), wraps=("c", "fortran"), doc="clibrary.yaml / strings.yaml passChar, returnChar")
+def _(n, T):
+    return [F(n + "r", "char", [P("a", "val", "int")]),
+            F(n + "a", "int", [P("c", "val", "char")]),
+            F(n + "b", "char", [P("c", "val", "char"), P("k", "val", "int")])]
 
 
 @shape("class_const", langs=("c++",), wraps=("c",), doc="docs/classes.rst: const and non-const member functions, an overload pair that differs only in const, a const method declared first")
@@ -537,6 +558,8 @@ def assign_names(lib):
 
 def int_battery(T):
     t = ir.TYPES[T]
+    if t.get("char"):
+        return [65, 32, 122, 48, 126]
     bits = t["bits"]
     if t["signed"]:
         return [0, 1, -1, 7, (1 << (bits - 1)) - 1, -(1 << (bits - 1)), 100]
